@@ -141,10 +141,12 @@ func ResolveStateConflictsV2(
 			if _, ok := visited[authEventID]; ok {
 				continue
 			}
+			// Mark the event before walking it: where event IDs are chosen by
+			// the sender an event can cite itself, directly or through others.
+			visited[authEventID] = struct{}{}
 			if event, ok := r.conflictedEventMap[authEventID]; ok {
 				events = append(events, fullControlSet(event)...)
 			}
-			visited[authEventID] = struct{}{}
 		}
 		return events
 	}
@@ -301,10 +303,12 @@ func ResolveStateConflictsV2New(
 			if _, ok := visited[authEventID]; ok {
 				continue
 			}
+			// Mark the event before walking it: where event IDs are chosen by
+			// the sender an event can cite itself, directly or through others.
+			visited[authEventID] = struct{}{}
 			if event, ok := r.conflictedEventMap[authEventID]; ok {
 				events = append(events, fullControlSet(event)...)
 			}
-			visited[authEventID] = struct{}{}
 		}
 		return events
 	}
@@ -683,8 +687,15 @@ func (r *stateResolverV2) createPowerLevelMainline() []PDU {
 	var mainline []PDU
 
 	// Define our iterator function.
+	walked := map[string]struct{}{}
 	var iter func(event PDU)
 	iter = func(event PDU) {
+		// Power level events can cite each other in a cycle where event IDs are
+		// chosen by the sender: walk every event once.
+		if _, ok := walked[event.EventID()]; ok {
+			return
+		}
+		walked[event.EventID()] = struct{}{}
 		// Append this event to the beginning of the mainline.
 		mainline = append(mainline, nil)
 		copy(mainline[1:], mainline)
@@ -731,8 +742,14 @@ func (r *stateResolverV2) getFirstPowerLevelMainlineEvent(event PDU) (
 	}
 
 	// Define our iterator function.
+	walked := map[string]struct{}{}
 	var iter func(event PDU)
 	iter = func(event PDU) {
+		// As in createPowerLevelMainline: walk every event once.
+		if _, ok := walked[event.EventID()]; ok {
+			return
+		}
+		walked[event.EventID()] = struct{}{}
 		// In much the same way as we do in createPowerLevelMainline, we loop
 		// through the event's auth events, checking that it exists in our supplied
 		// auth event map and finding power level events.
